@@ -83,16 +83,27 @@ func Verify(stump Stump, delHashes []Hash, proof Proof) ([]int, error) {
 		return nil, err
 	}
 
-	_, rootCandidates, err := calculateHashes(stump.NumLeaves, delHashes, proof)
+	intermediate, rootCandidates, err := calculateHashes(stump.NumLeaves, delHashes, proof)
 	if err != nil {
 		return nil, err
 	}
+
+	// A calculated root has to match the root of the tree it was calculated in.
+	candidatePositions := calculatedRootPositions(stump.NumLeaves, intermediate)
+	if len(candidatePositions) != len(rootCandidates) {
+		return nil, fmt.Errorf("StumpVerify fail. Invalid proof. Calculated %d roots "+
+			"at %d root positions", len(rootCandidates), len(candidatePositions))
+	}
+	rootPositions := RootPositions(stump.NumLeaves, TreeRows(stump.NumLeaves))
+
 	rootIndexes := make([]int, 0, len(rootCandidates))
 	for i := range stump.Roots {
-		if len(rootCandidates) > len(rootIndexes) &&
-			stump.Roots[len(stump.Roots)-(i+1)] == rootCandidates[len(rootIndexes)] {
+		idx := len(stump.Roots) - (i + 1)
+		if len(rootCandidates) > len(rootIndexes) && idx < len(rootPositions) &&
+			rootPositions[idx] == candidatePositions[len(rootIndexes)] &&
+			stump.Roots[idx] == rootCandidates[len(rootIndexes)] {
 
-			rootIndexes = append(rootIndexes, len(stump.Roots)-(i+1))
+			rootIndexes = append(rootIndexes, idx)
 		}
 	}
 
